@@ -304,7 +304,9 @@ def concStep (s : ConcState) : List String → ConcState × String
     -- answers 200 with its complete body (the 504 comes after the commit and is dropped), the quick one its own body —
     -- also after the slow handler has finished.
     let one := "slow=200:736c6f772d726573756c74 fast=200:66617374 fast-afterwards=200:66617374"
-    (s, s!"plain {one} | static {one}")
+    -- third part: a handler that panics after the deadline, with an OnPanic hook answering 500 "recovered": the
+    -- client sees exactly the hook's answer
+    (s, s!"plain {one} | static {one} | panic 500:7265636f7665726564")
   | _ => (s, "bad-op")
 
 def concEngine : Engine := { σ := ConcState, init := {}, step := concStep }
